@@ -149,6 +149,7 @@ def run_frames(level, frames, settle_between=True, probe=True, judge_first_reply
             dev.inject(f, settle=settle_between)
     dev.settle()
     dev.lingering = bool(dev.app.smap.serverTransactions or dev.app.smap.clientTransactions)
+    dev.lingering_server = bool(dev.app.smap.serverTransactions)
     dev.run_quiet()
     problems = []
     sent = replies_of(dev, level, start)
@@ -262,8 +263,9 @@ def mut_shard(item, deadline):
         # of a request whose rest never comes) are kept per invoke ID because they interact with later traffic
         if dev.lingering:
             apdu0 = 6 if level == "ip" else 2
-            key = (level, "lingering", frame[apdu0 + 2] if len(frame) > apdu0 + 2 else None, cls["why"])
-            prio = 0
+            key = (level, "lingering", "serving" if dev.lingering_server else "asking",
+                   frame[apdu0 + 2] if len(frame) > apdu0 + 2 else None, cls["why"])
+            prio = 0 if dev.lingering_server else 3      # 0: the device is left serving, 3: left asking (its own request)
         else:
             key = (level, hs, cls["why"], bool(problems), obs[0].split("->")[0] if obs else "silent")
             prio = 1 if hs else 2
@@ -595,7 +597,7 @@ def run(tier, seed, deadline):
     for level in ("lan", "ip"):
         # round robin over the three kinds (frames that leave a transaction waiting, frames whose handling raises, the
         # rest) so that a cut of the pool keeps all three kinds whatever their numbers
-        kinds = [list(by_prio.get((level, prio), [])) for prio in (0, 1, 2)]
+        kinds = [list(by_prio.get((level, prio), [])) for prio in (0, 1, 3, 2)]
         out = []
         while any(kinds):
             for k in kinds:
@@ -603,12 +605,12 @@ def run(tier, seed, deadline):
                     out.append(k.pop(0))
         pool[level] = out
     acc.info["garbage pool"] = {k: len(v) for k, v in pool.items()}
-    acc.info["garbage pool by kind (waiting / raising / rest)"] = {lv: [len(by_prio.get((lv, p), [])) for p in (0, 1, 2)] for lv in ("lan", "ip")}
+    acc.info["garbage pool by kind (left serving / raising / left asking / rest)"] = {lv: [len(by_prio.get((lv, p), [])) for p in (0, 1, 3, 2)] for lv in ("lan", "ip")}
     # histories
     items = []
     depth = 2 if tier == "quick" else 3
     for level in ("lan", "ip"):
-        garbage = pool.get(level, [])[:40 if tier == "quick" else 60]      # the three kinds in turn
+        garbage = pool.get(level, [])[:48 if tier == "quick" else 64]      # the three kinds in turn
         valid = wrap(level, VALID)
         for n in range(1, depth + 1):
             if n == 3:
